@@ -1448,16 +1448,41 @@ func callCycle(fn *ssa.Function) string {
 				if !ok {
 					continue
 				}
-				callee := call.Common().StaticCallee()
-				if callee == nil || callee.Pkg != fn.Pkg {
-					continue
+				var callees []*ssa.Function
+				if callee := call.Common().StaticCallee(); callee != nil {
+					callees = append(callees, callee)
+				} else if call.Common().IsInvoke() && fn.Pkg != nil {
+					// a call through an interface can reach every method of that name declared in the same package
+					// (an adaptor type wrapped around the caller's argument, for instance)
+					name := call.Common().Method.Name()
+					for _, mem := range fn.Pkg.Members {
+						tp, ok := mem.(*ssa.Type)
+						if !ok {
+							continue
+						}
+						for _, t := range []types.Type{tp.Type(), types.NewPointer(tp.Type())} {
+							ms := fn.Prog.MethodSets.MethodSet(t)
+							for i := 0; i < ms.Len(); i++ {
+								if ms.At(i).Obj().Name() == name {
+									if m := fn.Prog.MethodValue(ms.At(i)); m != nil {
+										callees = append(callees, m)
+									}
+								}
+							}
+						}
+					}
 				}
-				if state[callee] == 1 {
-					found = fnKey(f) + " -> " + fnKey(callee)
-					return true
-				}
-				if state[callee] == 0 && dfs(callee) {
-					return true
+				for _, callee := range callees {
+					if callee.Pkg != fn.Pkg {
+						continue
+					}
+					if state[callee] == 1 {
+						found = fnKey(f) + " -> " + fnKey(callee)
+						return true
+					}
+					if state[callee] == 0 && dfs(callee) {
+						return true
+					}
 				}
 			}
 		}
